@@ -176,12 +176,22 @@ func (x *Exec) fireNextTimer() bool {
 // (a harness operation; a scheduling point like any other).
 //
 //go:norace
-func Advance(d time.Duration) {
+func Advance(d time.Duration) { AdvanceIf(d, nil) }
+
+// AdvanceIf is Advance guarded by a condition that is evaluated AFTER the scheduling point, in the same
+// step as the clock movement (a harness that lets time pass only in certain states must not decide that
+// before other threads have had their turn). It reports whether the clock moved.
+//
+//go:norace
+func AdvanceIf(d time.Duration, ok func() bool) bool {
 	x := X
 	if x == nil || x.aborting {
-		return
+		return false
 	}
 	Sched("clock.Advance")
+	if ok != nil && !ok() {
+		return false
+	}
 	target := x.clock + int64(d)
 	for {
 		i := x.earliest()
@@ -194,6 +204,7 @@ func Advance(d time.Duration) {
 		x.fire(i)
 	}
 	x.clock = target
+	return true
 }
 
 // PendingTimers reports the number of armed timers.
